@@ -22,6 +22,7 @@ mod wl_panic;
 mod wl_prog;
 mod wl_race;
 mod wl_reent;
+mod wl_sb;
 mod wl_seq;
 mod wl_serde;
 mod wl_wrap;
@@ -51,6 +52,7 @@ fn main() {
         "serde" => cmd_serde(&args),
         "panic" => cmd_panic(&args),
         "dual" => cmd_dual(&args),
+        "sb" => cmd_sb(&args),
         "reent" => {
             sched::set_mode(Mode::Off);
             let n = wl_reent::run();
@@ -308,6 +310,55 @@ fn cmd_race(a: &Args) -> i32 {
     let live = if val == "arc" { tp::ARC_LIVE.load(std::sync::atomic::Ordering::Relaxed) } else { tp::LIVE_OBJS.load(std::sync::atomic::Ordering::Relaxed) };
     if live != 0 {
         runner::violation("C02", "leak", format!("{} value(s) alive after everything was dropped", live), &json!({"workload": "race", "seed": seed, "shard": shard}));
+    }
+    0
+}
+
+/// Store-buffering litmus (Miri): keys shard (selects shape / strategy / read flavour), rounds, val.
+fn cmd_sb(a: &Args) -> i32 {
+    tp::set_alloc_mode(AllocMode::Real);
+    arc_swap::verif::set_step_hook(None);
+    sched::set_mode(Mode::Off);
+    let shard = a.u64("shard", 0);
+    let rounds = a.u64("rounds", 3);
+    let shape = a.usize("sbshape", (shard % 2) as usize);
+    let fill = (shard / 2) % 2 == 1;
+    let rkind = a.usize("read", ((shard / 4) % 4) as usize);
+    let val = a.str("val", if (shard / 16) % 2 == 0 { "arc" } else { "tp" });
+    let only_write = a.str("write", "all");
+    let mut n = 0u64;
+    for wkind in 0..4usize {
+        if only_write != "all" && only_write != wl_sb::WRITES[wkind] {
+            continue;
+        }
+        for r in 0..rounds {
+            let rid = wkind as u64 * 100 + r;
+            let out = match (val.as_str(), fill) {
+                ("tp", false) => wl_sb::round::<Tp<1>, DefaultStrategy>(shape, wkind, rkind, rid),
+                ("tp", true) => wl_sb::round::<Tp<1>, FillFastSlots>(shape, wkind, rkind, rid),
+                (_, false) => wl_sb::round::<Option<std::sync::Arc<Payload>>, DefaultStrategy>(shape, wkind, rkind, rid),
+                (_, true) => wl_sb::round::<Option<std::sync::Arc<Payload>>, FillFastSlots>(shape, wkind, rkind, rid),
+            };
+            n += 1;
+            runner::count(&format!("sb.{}.{}.{}.{}", if shape == 0 { "flag" } else { "two" }, wl_sb::WRITES[wkind], wl_sb::READS[rkind], if fill { "fallback-only" } else { "default" }), 1);
+            if let Some(d) = out {
+                let prop = match wkind {
+                    2 => "C05",
+                    3 => "C06",
+                    _ => "C03",
+                };
+                runner::violation(prop, "store-buffering", d, &json!({"workload": "sb", "shard": shard, "shape": shape, "write": wl_sb::WRITES[wkind], "read": wl_sb::READS[rkind], "fill": fill, "val": val, "round": r}));
+            }
+        }
+    }
+    runner::with(|x| {
+        x.execs += n;
+        x.ops += n * 4;
+    });
+    runner::count("distinct_nontrivial", n);
+    let live = if val == "tp" { tp::LIVE_OBJS.load(std::sync::atomic::Ordering::Relaxed) } else { tp::ARC_LIVE.load(std::sync::atomic::Ordering::Relaxed) };
+    if live != 0 {
+        runner::violation("C02", "leak", format!("{} value(s) alive after everything was dropped", live), &json!({"workload": "sb", "shard": shard}));
     }
     0
 }
